@@ -41,6 +41,21 @@ pub struct WavSpec {
 	/// seed of the sample data; `indexed`: frame i carries a value that identifies i
 	pub seed: u64,
 	pub indexed: bool,
+	/// WAVE_FORMAT_EXTENSIBLE header (40-byte fmt chunk with channel mask and sub-format GUID), as
+	/// written by most tools for 24-bit, float and multi-channel files
+	#[serde(default)]
+	pub extensible: bool,
+}
+
+impl WavSpec {
+	/// offset of the first sample byte
+	pub fn data_offset(&self) -> usize {
+		if self.extensible {
+			68
+		} else {
+			44
+		}
+	}
 }
 
 /// Raw sample (as stored in the file) of (frame, channel).
@@ -74,18 +89,32 @@ pub fn encode(spec: &WavSpec) -> Vec<u8> {
 	let block = bps * spec.channels as usize;
 	let data_len = block * spec.frames;
 	let float = matches!(spec.enc, Enc::F32 | Enc::F64);
-	let mut out = Vec::with_capacity(44 + data_len);
+	let mut out = Vec::with_capacity(68 + data_len);
 	out.extend_from_slice(b"RIFF");
-	out.extend_from_slice(&((36 + data_len) as u32).to_le_bytes());
+	out.extend_from_slice(&((spec.data_offset() - 8 + data_len) as u32).to_le_bytes());
 	out.extend_from_slice(b"WAVE");
 	out.extend_from_slice(b"fmt ");
-	out.extend_from_slice(&16u32.to_le_bytes());
-	out.extend_from_slice(&(if float { 3u16 } else { 1u16 }).to_le_bytes());
+	out.extend_from_slice(&(if spec.extensible { 40u32 } else { 16u32 }).to_le_bytes());
+	out.extend_from_slice(&(if spec.extensible { 0xFFFEu16 } else if float { 3u16 } else { 1u16 }).to_le_bytes());
 	out.extend_from_slice(&spec.channels.to_le_bytes());
 	out.extend_from_slice(&spec.sample_rate.to_le_bytes());
 	out.extend_from_slice(&((spec.sample_rate as usize * block) as u32).to_le_bytes());
 	out.extend_from_slice(&(block as u16).to_le_bytes());
 	out.extend_from_slice(&((bps * 8) as u16).to_le_bytes());
+	if spec.extensible {
+		out.extend_from_slice(&22u16.to_le_bytes()); // cbSize
+		out.extend_from_slice(&((bps * 8) as u16).to_le_bytes()); // valid bits per sample
+		// the standard speaker masks: front centre; front left | front right; then the first n speakers
+		let mask: u32 = match spec.channels {
+			1 => 0x4,
+			2 => 0x3,
+			n => (1u32 << n) - 1,
+		};
+		out.extend_from_slice(&mask.to_le_bytes());
+		// KSDATAFORMAT_SUBTYPE_PCM / _IEEE_FLOAT
+		out.extend_from_slice(&(if float { 3u32 } else { 1u32 }).to_le_bytes());
+		out.extend_from_slice(&[0x00, 0x00, 0x10, 0x00, 0x80, 0x00, 0x00, 0xaa, 0x00, 0x38, 0x9b, 0x71]);
+	}
 	out.extend_from_slice(b"data");
 	out.extend_from_slice(&(data_len as u32).to_le_bytes());
 	for f in 0..spec.frames {
@@ -97,7 +126,6 @@ pub fn encode(spec: &WavSpec) -> Vec<u8> {
 	out
 }
 
-pub const DATA_OFFSET: usize = 44;
 
 /// Documented PCM -> f32 conversion of one stored sample.
 pub fn sample_to_f32(enc: Enc, bytes: &[u8]) -> f32 {
@@ -120,10 +148,10 @@ pub fn sample_to_f32(enc: Enc, bytes: &[u8]) -> f32 {
 pub fn reference_frames(spec: &WavSpec, bytes: &[u8]) -> Vec<Frame> {
 	let bps = spec.enc.bytes();
 	let block = bps * spec.channels as usize;
-	if bytes.len() <= DATA_OFFSET || block == 0 {
+	if bytes.len() <= spec.data_offset() || block == 0 {
 		return vec![];
 	}
-	let data = &bytes[DATA_OFFSET..];
+	let data = &bytes[spec.data_offset()..];
 	let n = (data.len() / block).min(spec.frames);
 	(0..n)
 		.map(|f| {
